@@ -459,6 +459,9 @@ def _skolemize(I, g, skolems):
     if z3.is_implies(g):
         a, b = g.children()
         return z3.Implies(a, _skolemize(I, b, skolems))
+    if z3.is_or(g):
+        # A or (forall k. B)  ==  forall k. (A or B)   (k fresh): positive occurrences under a disjunction
+        return z3.Or(*[_skolemize(I, c, skolems) for c in g.children()])
     return g
 
 
